@@ -198,7 +198,8 @@ func enumC03(k int, fuel int, mine func(int) bool, visit func(WF)) int {
 // ---- state-machine mode: one long-lived flow object, connect / reconnect / run interleaved.
 
 type SMStep struct {
-	Op     string `json:"op"` // connect | run
+	Op     string `json:"op"` // connect | run | connect-in-run (performed from inside the post callback number At of the next run)
+	At     int    `json:"at,omitempty"`
 	From   int    `json:"from,omitempty"`
 	Action string `json:"action,omitempty"`
 	To     int    `json:"to,omitempty"`
@@ -222,8 +223,11 @@ func genC03SM(rt *rapid.T) C03SM {
 	s.Fuel = rapid.IntRange(2, 10).Draw(rt, "fuel")
 	ns := rapid.IntRange(1, 25).Draw(rt, "nsteps")
 	for i := 0; i < ns; i++ {
-		if rapid.IntRange(0, 3).Draw(rt, "isrun") == 0 {
+		if k := rapid.IntRange(0, 4).Draw(rt, "isrun"); k == 0 {
 			s.Steps = append(s.Steps, SMStep{Op: "run"})
+		} else if k == 1 {
+			s.Steps = append(s.Steps, SMStep{Op: "connect-in-run", At: rapid.IntRange(0, 4).Draw(rt, "at"), From: rapid.IntRange(0, n-1).Draw(rt, "from"),
+				Action: rapid.SampledFrom(prefixActions).Draw(rt, "act"), To: rapid.IntRange(-1, n-1).Draw(rt, "to")})
 		} else {
 			s.Steps = append(s.Steps, SMStep{Op: "connect", From: rapid.IntRange(0, n-1).Draw(rt, "from"),
 				Action: rapid.SampledFrom(prefixActions).Draw(rt, "act"), To: rapid.IntRange(-1, n-1).Draw(rt, "to")})
@@ -250,7 +254,12 @@ func checkC03SM(t *testing.T, s C03SM) Verdict {
 	flow := x.nodes[w.Root].(*flyt.Flow)
 	runs, reconn := 0, 0
 	nontrivial := false
+	var pending []SMStep // connects to be made from inside callbacks of the next run
 	for i, st := range s.Steps {
+		if st.Op == "connect-in-run" {
+			pending = append(pending, st)
+			continue
+		}
 		if st.Op == "connect" {
 			var to flyt.Node
 			if st.To >= 0 {
@@ -266,8 +275,56 @@ func checkC03SM(t *testing.T, s C03SM) Verdict {
 			}
 			continue
 		}
+		// Connect called from inside a node's post callback takes effect for the rest of THIS run:
+		// the flow "continues with the node most recently connected to that (node, a) pair".
+		posts := 0
+		todo := pending
+		pending = nil
+		apply := func(isModel bool) func() {
+			n := 0
+			return func() {
+				for _, d := range todo {
+					if d.At != n {
+						continue
+					}
+					if isModel {
+						fs.Conns = append(fs.Conns, Conn{From: d.From, Action: d.Action, To: d.To})
+					} else {
+						var to flyt.Node
+						if d.To >= 0 {
+							to = x.nodes[d.To]
+						}
+						flow.Connect(x.nodes[d.From], flyt.Action(d.Action), to)
+					}
+				}
+				n++
+			}
+		}
+		// The model must see each dynamic connection at the same point of the walk as the real
+		// flow does; both are applied "at the n-th post of the run". The real run goes first on a
+		// private copy of the table, then the model replays with the same schedule.
+		saved := append([]Conn(nil), fs.Conns...)
+		realApply := apply(false)
+		x.hook = func(seq int, ev *Ev) {
+			if ev.Phase == "post" {
+				realApply()
+				posts++
+			}
+		}
 		rr := x.run(context.Background())
+		x.hook = nil
+		fs.Conns = saved
+		m.onPost = apply(true)
 		mr := m.run()
+		m.onPost = nil
+		for _, d := range todo { // connects scheduled beyond the end of the run never happened: drop them on both sides
+			if d.At >= posts {
+				continue
+			}
+			if runs > 0 {
+				reconn++
+			}
+		}
 		tr := x.snapshot()[rr.Lo:rr.Hi]
 		if rr.Panic != "" {
 			return bad("C03:panic", "step %d: run panicked: %s", i, rr.Panic)
@@ -307,12 +364,28 @@ func TestC03(t *testing.T) {
 		enumC03(3, 8, func(idx int) bool { return idx%211 == r.env.shard }, func(w WF) { i++; evalCase(r, "sample-3nodes", w, checkC03) })
 		r.note("3-node space sampled with stride 211: %d cases in this shard", i)
 	}
-	g := wfGen{MaxLeaves: 12, MaxFlows: 3, Actions: prefixActions, MaxN: 1, MaxVisits: 4, FuelMax: 30, MaxRuns: 3}
+	g := wfGen{MaxLeaves: 12, MaxFlows: 3, Actions: prefixActions, MaxN: 1, MaxVisits: 4, FuelMax: 30, MaxRuns: 3, Twins: true}
 	rapidPart(r, "rand-nested", r.pick(4000, 60000), g.gen, checkC03)
+	gt := wfGen{MaxLeaves: 4, MaxFlows: 2, Actions: []string{"a", "b", ""}, MaxN: 1, MaxVisits: 3, FuelMax: 12, MaxRuns: 2, Twins: true, Kinds: []int{KPlain}, Recursion: true}
+	rapidPart(r, "twins-and-recursion", r.pick(2500, 40000), gt.gen, checkC03)
 	rapidPart(r, "state-machine", r.pick(1500, 20000), genC03SM, checkC03SM)
 }
 
 func init() {
 	registerReplay("C03", checkC03)
 	registerReplaySub("C03", "state-machine", checkC03SM)
+}
+
+// FuzzC03: coverage-guided search over flow graphs and action scripts (thorough tier).
+func FuzzC03(f *testing.F) {
+	f.Add([]byte{0})
+	f.Add([]byte("cycle-nil-overwrite"))
+	g := wfGen{MaxLeaves: 8, MaxFlows: 3, Actions: prefixActions, MaxN: 1, MaxVisits: 4, FuelMax: 24, MaxRuns: 3}
+	f.Fuzz(rapid.MakeFuzz(func(rt *rapid.T) {
+		sc := g.gen(rt)
+		if v := checkC03(nil, sc); v.Violation != "" {
+			writeFuzzReplay("C03", sc, v)
+			rt.Fatalf("VIOLATION C03: %s", v.Violation)
+		}
+	}))
 }
